@@ -917,7 +917,7 @@ func main() {
 	runner.Main(runner.Check{
 		Property: "C07",
 		Level:    "exploration",
-		Rule:     "five families. (late-calls) RPC 1 has ended (both half-closes / handler error / client Close), RPC 2 is under way, and 2-7 of SendError, Close, CloseSend, SendCancel, RawFlush, MsgSend, RawWrite are called on the stream object of RPC 1 in a seeded order, in half of the cases while RPC 2 is sending. (long-history) 33500 (thorough: 140000) one-byte messages each way on one stream, 17000 (thorough: 70000) unary RPCs on one connection, and 30 unary RPCs whose handler fails with error texts of 0 bytes to 1 MB, sequentially: message and stream ids grow through the values at which their encoding changes length. (storm) one case = one storm on one connection: 2-5 RPCs; in each streaming RPC 2-5 client goroutines issue 1-5 of MsgSend (boundary sizes, multi-frame), CloseSend, Close, RawFlush, context cancel, MsgRecv on the shared stream; the handler runs 0-2 sender goroutines plus a reader and returns nil or an error, one time in four while its senders are still in flight; about one in seven of the first 60 writes of each endpoint is parked (before or after delivering its bytes) and released one at a time at quiescence; seeded configuration cell, both cancel modes, perturbed scheduling in half of the cases. (parked-terminal) a client send parked inside the transport, a concurrent Close/CloseSend/SendError parked at one of its three internal points, the server ending the RPC remotely, further RPCs started, then write and call released in turn. (raw-next-invoke) a manager-level server handling each stream in its own goroutine, a raw peer moving to the next stream without closing the previous while the reply is parked in the transport and the terminal call is parked. Non-trivial: more than 4 transport writes observed. Distinct: by configuration and storm seed (program text is determined by the seed).",
+		Rule:     "five families. (late-calls) RPC 1 has ended (both half-closes / handler error / client Close), RPC 2 is under way, and 2-7 of SendError, Close, CloseSend, SendCancel, RawFlush, MsgSend, RawWrite are called on the stream object of RPC 1 in a seeded order, in half of the cases while RPC 2 is sending. (long-history) 33500 (thorough: 140000) one-byte messages each way on one stream, 17000 (thorough: 70000) unary RPCs on one connection, and 30 unary RPCs whose handler fails with error texts of 0 bytes to 1 MB, sequentially: message and stream ids grow through the values at which their encoding changes length. (storm) one case = one storm on one connection: 2-5 RPCs; in each streaming RPC 2-5 client goroutines issue 1-5 of MsgSend (boundary sizes, multi-frame), CloseSend, Close, RawFlush, context cancel, MsgRecv on the shared stream; the handler runs 0-2 sender goroutines plus a reader and returns nil or an error, one time in four while its senders are still in flight; about one in seven of the first 60 writes of each endpoint is parked (before or after delivering its bytes) and released one at a time at quiescence; seeded configuration cell, both cancel modes, perturbed scheduling in half of the cases. (parked-terminal) a client send parked inside the transport, a concurrent Close/CloseSend/SendError parked at one of its three internal points, the server ending the RPC remotely, further RPCs started, then write and call released in turn. (raw-next-invoke) a manager-level server handling each stream in its own goroutine, a raw peer moving to the next stream without closing the previous while the reply is parked in the transport and the terminal call is parked. Non-trivial: more than 4 transport writes observed. Distinct: by configuration and storm seed (program text is determined by the seed). (slow-encoder) a MsgSend held inside its encoder while 1-4 goroutines of the same endpoint (client, or inside the handler) queue up behind it with RawWrite, MsgSend, RawFlush, CloseSend.",
 		Assumptions: []string{
 			"the monitor reads the transport tap only; nothing about delivery is asserted here",
 			"a storm that cannot finish (application-level flow-control deadlock) is still judged on the bytes it wrote",
